@@ -280,10 +280,8 @@ class CGMYModel(LevyModel):
     def __init__(self, parameters: CGMYParameters):
         self.parameters = parameters
         cumulant = _CGMYCumulant(drift=0, parameters=parameters)
-        if parameters.y < 0.0:
-            representation = LevyRepresentation.ZERO
-        else:
-            representation = LevyRepresentation.CENTER
+        # the exponent and the cumulants below are those of the fully compensated jumps for every y
+        representation = LevyRepresentation.CENTER
 
         triplet = LevyTriplet(
             a=0,
@@ -305,14 +303,18 @@ class CGMYModel(LevyModel):
         c, g, m, y = p.c, p.g, p.m, p.y
 
         res = 0
+        # the triplet is declared in the center representation for y >= 0: the exponent carries the compensator -x E[jump]
         if y == 0:
-            res += -c * (np.log(1 + x / g) + np.log(1 - x / m))
+            res += -c * (np.log(1 + x / g) + np.log(1 - x / m)) - c * x * (
+                1 / m - 1 / g
+            )
         elif y == 1.0:
             res += c * (
                 (g + x) * np.log(g + x)
                 - g * np.log(g)
                 + (m - x) * np.log(m - x)
                 - m * np.log(m)
+                + x * (np.log(m) - np.log(g))
             )
         else:
             # adjustment for y >= 0 because of the center representation
